@@ -308,6 +308,10 @@ func prepareRender(c J) (*renderSetup, error) {
 	if jbool(c, "strict") {
 		eng.StrictVariables()
 	}
+	if pre := jarr(c, "predelims"); len(pre) == 4 {
+		// an earlier configuration of the same engine
+		eng.Delims(bytesOf(pre[0]), bytesOf(pre[1]), bytesOf(pre[2]), bytesOf(pre[3]))
+	}
 	if sp.Raw != nil {
 		eng.Delims(sp.Raw[0], sp.Raw[1], sp.Raw[2], sp.Raw[3])
 	}
